@@ -821,7 +821,7 @@ M_ProvN(msPost, step) ==
 (* namespace maps, subtype element names, prov:ref, the xsi:type decision) produces            *)
 M_Xml(msPost, step) ==
   Cl("M_Xml", IsRT(step, "xml") /\ step.stage \in {"read", "done"} /\ WfXML(step.ast),
-     SameAX(AbsX(step.ast), EncAX(msPost, step.op.h, step.op.opts \in {"force", "alt"})))
+     SameAX(AbsX(step.ast), EncAX(msPost, step.op.h, step.op.opts \in {"force", "alt"}, AbsX(step.ast))))
 M_Eq(r, step) == Cl("M_Eq", step.op.op = "CompareAll" /\ step.exc = "none", r.res = step.res.eq)
 
 =============================================================================
